@@ -9,7 +9,7 @@
  *
  * Script (stdin), one run of run_io per line — the same script the Lean driver `drv_startup` reads:
  *   run <local 0|1> <user 0|1> <foreground 0|1> <answer>...
- *   answer: ok | fail | retry | conn | a:<digits 4|6>     (see lean/Cjet/Drv/Startup.lean)
+ *   answer: ok | fail | retry | conn | a:<n>     (see lean/Cjet/Drv/Startup.lean)
  * Every call whose result linux_io.c inspects takes the next answer (none left = ok).  close, unlink,
  * loop->remove, loop->destroy, freeaddrinfo, signal(.., SIG_DFL), destroy_all_* take none.
  *
@@ -550,10 +550,9 @@ int __wrap_getaddrinfo(const char *node, const char *service, const struct addri
 		out("GAI %s %s fail", nn, portname(port));
 		return EAI_FAIL;
 	}
-	if (a == A_OK) {
-		digits = (node != NULL && strchr(node, ':') != NULL) ? "6" : "4";
-	}
-	int n = (int)strlen(digits);
+	int n = a == A_OK ? 1 : atoi(digits);
+	int v6 = node != NULL && strchr(node, ':') != NULL;
+	if (n < 0 || n > 1000) n = 0;
 	out("GAI %s %s %d", nn, portname(port), n);
 	struct addrinfo *head = NULL, **tail = &head;
 	for (int i = 0; i < n; i++) {
@@ -561,7 +560,7 @@ int __wrap_getaddrinfo(const char *node, const char *service, const struct addri
 		struct sockaddr_storage *ss = (struct sockaddr_storage *)(ai + 1);
 		ai->ai_socktype = SOCK_STREAM;
 		ai->ai_addr = (struct sockaddr *)ss;
-		if (digits[i] == '6') {
+		if (v6) {
 			struct sockaddr_in6 *s = (struct sockaddr_in6 *)ss;
 			ai->ai_family = AF_INET6;
 			s->sin6_family = AF_INET6;
